@@ -167,3 +167,157 @@ def r9_container_replaced_in_loop(ctx):
 
 
 RULES += [r9_container_replaced_in_loop]
+
+
+# ------------------------------------------------------------------ dual sets and the validity marks of the Boolean product
+DD = "include/crab/domains/discrete_domains.hpp"
+
+
+def r10_dual_set_membership(ctx):
+    ctx.rule("C03.r10", "dual_set_domain (the larger the set, the more precise): operator<= is reverse inclusion of the underlying sets "
+             "and the membership test at(e) is `*this <= {e}` (never `{e} <= *this`, which holds for the empty set and fails for "
+             "every set with a second element)", floor=2)
+    from ..match import rets, resolve_local
+    from ..tree import deref
+    fns = [f for f in ctx.db.fns(DD, cpk="crab::domains::dual_set_domain")]
+    if not ctx.need(fns, "dual_set_domain methods", "C03.r10"):
+        return
+    n_at = n_le = 0
+    for fn in fns:
+        if fn["name"] == "operator<=":
+            # the comparison of the underlying sets has the ARGUMENT's set on the left
+            for r in rets(fn["body"]):
+                for c in walk(r):
+                    if is_call(c, name="operator<=") and is_field(obj(c), "m_set") and c.get("a") and is_field(c["a"][0], "m_set"):
+                        n_le += 1
+                        lhs_own = is_this(deref(obj(c)).get("b"))
+                        rhs_own = is_this(deref(c["a"][0]).get("b"))
+                        if (not lhs_own) and rhs_own:
+                            ctx.ok("dual_set_domain::operator<= is reverse inclusion", fn, c)
+                        else:
+                            ctx.bad("dual_set_domain::operator<= compares `%s`: the dual order must be REVERSE inclusion "
+                                    "(other.m_set <= m_set)" % src(c)[:60], fn, c, sig="dual-order-direction")
+        if fn["name"] == "at" and len(fn.get("params", [])) == 1:
+            pid = fn["params"][0]["id"]
+            d = local_decls(fn["body"])
+            for r in rets(fn["body"]):
+                e = strip(r.get("v") if r.get("k") == "ret" else r)
+                if not (isinstance(e, dict) and is_call(e, name="operator<=")):
+                    ctx.skipped("C03.r10|at|%s" % src(r)[:40], rid="C03.r10")
+                    continue
+                n_at += 1
+
+                def from_param(x):
+                    x = strip(x)
+                    if isinstance(x, dict) and x.get("k") == "ref" and x.get("rk") == "local":
+                        dd = d.get(x.get("id")) or {}
+                        return "i" in dd and any(y.get("k") == "ref" and y.get("id") == pid for y in walk(dd["i"]))
+                    return any(y.get("k") == "ref" and y.get("id") == pid for y in walk(x)) if isinstance(x, dict) else False
+
+                def is_self(x):
+                    x = deref(x)
+                    return x is None or (isinstance(x, dict) and x.get("k") == "this")
+                L, R = obj(e), (e.get("a") or [None])[0]
+                if is_self(L) and from_param(R):
+                    ctx.ok("dual_set_domain::at(e) tests *this <= {e}", fn, e)
+                elif from_param(L) and is_self(R):
+                    ctx.bad("dual_set_domain::at(e) tests `{e} <= *this`: in the dual order that is `the set is a subset of {e}` - true "
+                            "for the empty set, false for every set that also holds another element - not membership of e", fn, e,
+                            sig="dual-membership-direction")
+                else:
+                    ctx.skipped("C03.r10|at|%s" % src(e)[:40], rid="C03.r10")
+    if n_at == 0 or n_le == 0:
+        ctx.fail("rule C03.r10: dual_set_domain::at / operator<= not found in the expected comparison form")
+
+
+def r11_validity_mark(ctx):
+    ctx.rule("C03.r11", "Boolean-numerical product: a variable is added to m_unchanged_vars (the mark that makes the constraints cached over "
+             "it applicable) only where it is known to carry the mark already or after the constraints cached over it have been dropped "
+             "from BOTH constraint caches; a variable redefined by expand() loses the mark", floor=2)
+    from ..paths import MustEvents, Unstructured
+    from ..tree import deref
+    fns = [f for f in ctx.db.fns(dm.FB, cpk=dm.FBN) if not f.get("static")]
+    if not ctx.need(fns, "flat_boolean_numerical_domain methods", "C03.r11"):
+        return
+    CACHES = ("m_bool_to_lincsts", "m_bool_to_refcsts")
+    # helpers that drop from the cache passed as first argument the constraints mentioning the variable passed as second argument:
+    # their body filters the cache with transform_if and removes elements (operator-=) inside the transformer
+    purgers = set()
+    for f in fns:
+        if len(f.get("params", [])) != 2:
+            continue
+        env_id = f["params"][0]["id"]
+        for c in walk(f["body"]):
+            if is_call(c, name="transform_if") and c.get("a") and any(y.get("k") == "ref" and y.get("id") == env_id for y in walk(c["a"][0])):
+                if any(is_call(y, name="operator-=") for x in c["a"][1:] for y in walk(x)):
+                    purgers.add(f["name"])
+    n = 0
+    for fn in fns:
+        body = fn["body"]
+        sites = [c for c in walk(body) if is_call(c, name="operator+=") and is_field(obj(c), "m_unchanged_vars")]
+        if fn["name"] == "expand" and len(fn.get("params", [])) == 2:
+            n += 1
+            new_id = fn["params"][1]["id"]
+            drops = [c for c in walk(body) if is_call(c, name="operator-=") and is_field(obj(c), "m_unchanged_vars") and c.get("a") and
+                     any(y.get("k") == "ref" and y.get("id") == new_id for y in walk(c["a"][0]))]
+            adds = [c for c in sites if any(y.get("k") == "ref" and y.get("id") == new_id for y in walk(c["a"][0]))]
+            if drops and not adds:
+                ctx.ok("expand: the redefined variable loses the unchanged mark", fn, drops[0])
+            else:
+                ctx.bad("flat_boolean_numerical_domain::expand(x, new_x) overwrites new_x but %s: the constraints cached over the previous "
+                        "value of new_x are applied to the copy by a later assume_bool" %
+                        ("adds it to m_unchanged_vars" if adds else "does not remove it from m_unchanged_vars"), fn, (adds or [body])[0],
+                        sig="expand-keeps-mark")
+            sites = [s for s in sites if s not in adds]
+        if not sites:
+            continue
+
+        def gen(x):
+            out = []
+            if x.get("k") == "call" and callee(x) and callee(x)["name"] in purgers and len(x.get("a", [])) == 2:
+                m, v = strip(x["a"][0]), strip(x["a"][1])
+                if is_field(m) and deref(m).get("n") in CACHES and isinstance(v, dict) and v.get("k") == "ref":
+                    out.append("purged:%s:%s" % (deref(m)["n"], v.get("id")))
+            return out
+
+        def refine(cond, pol):
+            # `m_unchanged_vars.at(v)` known to hold: v already carries the mark, nothing becomes applicable
+            def atom_for(c):
+                c = strip(c)
+                if is_call(c, name="at") and is_field(obj(c), "m_unchanged_vars") and c.get("a"):
+                    return c
+                return None
+            c, p = strip(cond), pol
+            while isinstance(c, dict) and c.get("k") == "un" and c.get("op") == "!":
+                c, p = strip(c.get("e")), not p
+            a = atom_for(c)
+            if a is not None and p:
+                v = strip(a["a"][0])
+                if isinstance(v, dict) and v.get("k") == "ref":
+                    return tuple("purged:%s:%s" % (m, v.get("id")) for m in CACHES)
+            return ()
+        try:
+            fl = MustEvents(gen, refine=refine)
+            fl.run(body)
+        except Unstructured:
+            ctx.skipped("C03.r11|%s" % fn["name"], rid="C03.r11")
+            continue
+        for s in sites:
+            n += 1
+            v = strip(s["a"][0])
+            st = fl.at.get(id(s))
+            vid = v.get("id") if isinstance(v, dict) and v.get("k") == "ref" else None
+            if st is not None and vid is not None and all(("purged:%s:%s" % (m, vid)) in st for m in CACHES):
+                ctx.ok("%s: `%s` marked unchanged after its stale cached constraints are dropped" % (fn["name"], src(v)), fn, s)
+            elif st is None:
+                ctx.ok("%s: unreachable mark" % fn["name"], fn, s)
+            else:
+                ctx.bad("flat_boolean_numerical_domain::%s adds `%s` to m_unchanged_vars on a path where the variable may have been modified "
+                        "since a constraint over it was cached, without dropping those constraints from %s first: "
+                        "b := (x <= 3); x := 10; c := (x >= 0); assume(b) then re-applies x <= 3" %
+                        (fn["name"], src(v), " and ".join(CACHES)), fn, s, sig="unchanged-mark-without-purge:%s" % fn["name"])
+    if n == 0:
+        ctx.fail("rule C03.r11: no addition to m_unchanged_vars found")
+
+
+RULES += [r10_dual_set_membership, r11_validity_mark]
